@@ -170,7 +170,7 @@ func c11Scenarios() []bScenario {
 		t1 := vrt.GoProc("reader", 2, func() {
 			c11Do(rd, func() (int, error) { b, err := sst.BufferReader().ReadBytes(5); return len(b), err })
 		})
-		t2 := vrt.GoProc("closer", 2, func() { vrt.AnyMoment(); sst.Close() })
+		t2 := vrt.GoLazy("closer", 2, func() { sst.Close() })
 		vrt.WaitThreads(t1, t2)
 		if !isClosedErr(rd.err) {
 			vrt.Failf("read-result", "read released by a local Close returned %v", rd.err)
@@ -185,7 +185,7 @@ func c11Scenarios() []bScenario {
 		t1 := vrt.GoProc("reader", 2, func() {
 			c11Do(rd, func() (int, error) { b, err := sst.BufferReader().ReadBytes(5); return len(b), err })
 		})
-		t2 := vrt.GoProc("peer-closer", 1, func() { vrt.AnyMoment(); cst.Close() })
+		t2 := vrt.GoLazy("peer-closer", 1, func() { cst.Close() })
 		vrt.WaitThreads(t1, t2)
 		if rd.err != ErrEndOfStream {
 			vrt.Failf("read-result", "read released by the peer's close returned %v", rd.err)
@@ -200,7 +200,7 @@ func c11Scenarios() []bScenario {
 		t1 := vrt.GoProc("reader", 2, func() {
 			c11Do(rd, func() (int, error) { b, err := sst.BufferReader().ReadBytes(5); return len(b), err })
 		})
-		t2 := vrt.GoProc("session-closer", 2, func() { vrt.AnyMoment(); p.s.Close() })
+		t2 := vrt.GoLazy("session-closer", 2, func() { p.s.Close() })
 		vrt.WaitThreads(t1, t2)
 		if rd.err == nil || rd.err == ErrTimeout {
 			vrt.Failf("read-result", "read released by Session.Close returned %v", rd.err)
@@ -215,7 +215,7 @@ func c11Scenarios() []bScenario {
 		t1 := vrt.GoProc("reader", 1, func() {
 			c11Do(rd, func() (int, error) { b, err := cst.BufferReader().ReadBytes(5); return len(b), err })
 		})
-		t2 := vrt.GoProc("killer", 0, func() { vrt.AnyMoment(); p.killProc(2) })
+		t2 := vrt.GoLazy("killer", 0, func() { p.killProc(2) })
 		vrt.WaitThreads(t1, t2)
 		if rd.err == nil || rd.err == ErrTimeout {
 			vrt.Failf("read-result", "read while the peer process died returned %v", rd.err)
@@ -283,7 +283,7 @@ func c11Scenarios() []bScenario {
 		t1 := vrt.GoProc("acceptor", 2, func() {
 			c11Do(ac, func() (int, error) { _, err := p.s.AcceptStream(); return 0, err })
 		})
-		t2 := vrt.GoProc("session-closer", 2, func() { vrt.AnyMoment(); p.s.Close() })
+		t2 := vrt.GoLazy("session-closer", 2, func() { p.s.Close() })
 		vrt.WaitThreads(t1, t2)
 		if ac.err == nil {
 			vrt.Failf("accept-result", "AcceptStream on a closed session returned a stream")
@@ -298,7 +298,7 @@ func c11Scenarios() []bScenario {
 		t1 := vrt.GoProc("writer", 1, func() {
 			c11Do(fl, func() (int, error) { return 0, c09Flush(cst, 1, 0, 100) })
 		})
-		t2 := vrt.GoProc("session-closer", 1, func() { vrt.AnyMoment(); p.c.Close() })
+		t2 := vrt.GoLazy("session-closer", 1, func() { p.c.Close() })
 		vrt.WaitThreads(t1, t2)
 		if fl.to-fl.from > int64(11*vrt.Second) {
 			vrt.Failf("too-late", "fallback flush took %d ms", (fl.to-fl.from)/1e6)
